@@ -571,7 +571,7 @@ theorem header_of_buildReq (f : Format) (conf lines : List (Str × Str)) (e : En
   | raw =>
     simp only [buildReq] at h
     rw [enrich_header _ _ _ wc.canonKeys h n hn]
-    simp only [readRequest, hget_hdel_ne _ _ _ hn, hget_foldl_hadd, hget_nil, hcf, expHeader, fileVals, seenLines,
+    simp only [readRequest, readRequestWith, hget_hdel_ne _ _ _ hn, hget_foldl_hadd, hget_nil, hcf, expHeader, fileVals, seenLines,
       Option.getD_none, List.nil_append]
     generalize valsOf (List.map (fun kv => (kv.fst, trimHTTP kv.snd)) lines) n = l
     cases l <;> rfl
@@ -595,9 +595,9 @@ theorem host_of_buildReq (f : Format) (conf lines : List (Str × Str)) (e : Entr
     simp only [buildReq, buildAmmo] at h
     have w := WF_mergeUri _ _ (WF_foldl_hset [] WF_nil lines) wc
     rw [enrich_host _ _ _ w (hget_nil _) h]
-    simp only [newRequest, hget_mergeUri _ _ wc.canonKeys, hget_commonOf, hget_nil, hcf, urlHost, urlOf, fileHost,
-      seenLines, lastOf_getLast?]
-    by_cases hu : (splitURL e.uri).1 = []
+    simp only [newRequest, splitURL, viaOf, hget_mergeUri _ _ wc.canonKeys, hget_commonOf, hget_nil, hcf, urlHost, urlOf,
+      fileHost, seenLines, lastOf_getLast?, reduceCtorEq, decide_false]
+    by_cases hu : (splitURLv false e.uri).1 = []
     · cases hg : (valsOf lines hostKey).getLast? with
       | some v => simp [hu]
       | none => cases hc : valsOf conf hostKey <;> simp [hu]
@@ -606,9 +606,9 @@ theorem host_of_buildReq (f : Format) (conf lines : List (Str × Str)) (e : Entr
     simp only [buildReq, buildAmmo] at h
     have w := WF_mergeUri _ _ (WF_foldl_hset [] WF_nil lines) wc
     rw [enrich_host _ _ _ w (hget_nil _) h]
-    simp only [newRequest, hget_mergeUri _ _ wc.canonKeys, hget_commonOf, hget_nil, hcf, urlHost, urlOf, fileHost,
-      seenLines, lastOf_getLast?]
-    by_cases hu : (splitURL e.uri).1 = []
+    simp only [newRequest, splitURL, viaOf, hget_mergeUri _ _ wc.canonKeys, hget_commonOf, hget_nil, hcf, urlHost, urlOf,
+      fileHost, seenLines, lastOf_getLast?, reduceCtorEq, decide_false]
+    by_cases hu : (splitURLv false e.uri).1 = []
     · cases hg : (valsOf lines hostKey).getLast? with
       | some v => simp [hu]
       | none => cases hc : valsOf conf hostKey <;> simp [hu]
@@ -617,8 +617,9 @@ theorem host_of_buildReq (f : Format) (conf lines : List (Str × Str)) (e : Entr
     simp only [buildReq, buildAmmo, mergeJson_eq] at h
     have w := WF_foldl_hset _ wc lines
     rw [enrich_host _ _ _ w (hget_nil _) h]
-    simp only [newRequest, hget_commonOf, hcf, urlHost, urlOf, fileHost, seenLines, lastOf_getLast?]
-    by_cases hu : (splitURL (httpPfx ++ (e.host ++ e.uri))).1 = []
+    simp only [newRequest, splitURL, viaOf, hget_commonOf, hcf, urlHost, urlOf, fileHost, seenLines, lastOf_getLast?,
+      reduceCtorEq, decide_false]
+    by_cases hu : (splitURLv false (httpPfx ++ (e.host ++ e.uri))).1 = []
     · cases hg : (valsOf lines hostKey).getLast? with
       | some v => simp [hu]
       | none => cases hc : valsOf conf hostKey <;> simp [hu]
@@ -627,19 +628,20 @@ theorem host_of_buildReq (f : Format) (conf lines : List (Str × Str)) (e : Entr
     simp only [buildReq, buildAmmo, mergeJson_eq] at h
     have w := WF_foldl_hset _ wc lines
     rw [enrich_host _ _ _ w (hget_nil _) h]
-    simp only [newRequest, hget_commonOf, hcf, urlHost, urlOf, fileHost, seenLines, lastOf_getLast?]
-    by_cases hu : (splitURL (httpPfx ++ (e.host ++ e.uri))).1 = []
+    simp only [newRequest, splitURL, viaOf, hget_commonOf, hcf, urlHost, urlOf, fileHost, seenLines, lastOf_getLast?,
+      reduceCtorEq, decide_false]
+    by_cases hu : (splitURLv false (httpPfx ++ (e.host ++ e.uri))).1 = []
     · cases hg : (valsOf lines hostKey).getLast? with
       | some v => simp [hu]
       | none => cases hc : valsOf conf hostKey <;> simp [hu]
     · simp [hu]
   | raw =>
     simp only [buildReq] at h
-    rw [enrich_host _ _ _ wc (by simp [readRequest, hget_hdel_self]) h]
-    simp only [readRequest, hget_foldl_hadd, hget_nil, hcf, urlHost, urlOf, fileHost, seenLines, Option.getD_none,
-      List.nil_append]
+    rw [enrich_host _ _ _ wc (by simp [readRequest, readRequestWith, hget_hdel_self]) h]
+    simp only [readRequest, readRequestWith, viaOf, hget_foldl_hadd, hget_nil, hcf, urlHost, urlOf, fileHost, seenLines,
+      Option.getD_none, List.nil_append, decide_true]
     generalize valsOf (List.map (fun kv => (kv.fst, trimHTTP kv.snd)) lines) hostKey = l
-    by_cases hu : (splitURL e.uri).1 = []
+    by_cases hu : (splitURLv true e.uri).1 = []
     · cases l with
       | nil => simp [hu]; cases valsOf conf hostKey <;> rfl
       | cons v vs =>
